@@ -160,7 +160,7 @@ Qed.
 Theorem timeout_forwarded_iff : forall cfg now d caller req opts proc r callee_id next callee,
     let cid := (s_id caller, req) in
     let tmo := opt_int64 opts "timeout" in
-    let det := call_details cfg caller callee r opts proc in
+    let det := call_details cfg caller callee callee_id r opts proc in
     let d' := call_first_state now d cid opts r callee_id next callee in
     let inv := first_inv d cid callee_id callee r opts in
     (dget det "timeout" <> None <->
